@@ -27,6 +27,7 @@ def new_interp(policy="uf", prune="facts"):
     it.prune_mode = prune
     it.extra_roots["refs"] = C.VERIF
     it.assume_casts_in_range = True
+    it.A.real_compare = True
     return it
 
 
@@ -111,6 +112,8 @@ def eq(a, b):
     """Equality of two scalar values as a Bool term."""
     if V.is_nonfinite(a) or V.is_nonfinite(b):
         return z3.BoolVal(V.same(a, b))
+    if V.same(a, b):
+        return z3.BoolVal(True)
     return V.to_real(V.num_of_bool(a)) == V.to_real(V.num_of_bool(b))
 
 
@@ -186,7 +189,7 @@ def two_stage(w, build, names_hint="", inline=True):
                 cand = None
                 if v != "sat" and V.simp_bool(claim) is not False:
                     # a model of the formula without the ground lemmas is still a usable candidate (the replayer decides)
-                    v0, m0, _ = C.check_sat(list(b["facts"]) + [kw.get("guard", True), V.z_not(claim)], 5000)
+                    v0, m0, _ = C.check_sat(list(b["facts"]) + [kw.get("guard", True), V.z_not(claim)], 15000)
                     if v0 == "sat":
                         v, m = "sat", m0
                 if v == "sat" and m is not None:
